@@ -88,7 +88,32 @@ def run(ctx):
     # (refused starts, failing sinks, resets, bad frames, test recordings) is an output of its limiter
     import fam_proc
     pscripts = [fam_proc.gen_random_script(rng, "C12") for _ in range(150 if tier == "quick" else 2000)]
+    # stretches in which several conditions that are logged hold on every frame at once (continuous recorder failing to
+    # start, motion outside the window / without disk space / with file creation failing): their messages alternate
+    for i in range(30 if tier == "quick" else 300):
+        fps = rng.choice([1, 2, 3])
+        cfgp = dict(fps=fps, preview=rng.choice([0, 1]), trig=rng.choice([1, 2]), min=1, max=rng.choice([1, 2]), const=True,
+                    win=[600, 840], shadow=False, resx=4, resy=3)
+        steps = []
+        for seg in range(rng.randint(2, 5)):
+            cfail = rng.random() < 0.7
+            other = rng.choice(["win", "disk", "mstart", "none", "cstop"])
+            for k in range(rng.randint(3, 12)):
+                st = dict(a="frame", motion=(other != "none" and rng.random() < 0.9), win=(other != "win"), disk=(other != "disk"),
+                          mStart=(other != "mstart"), cStart=not cfail, cStop=(other != "cstop"))
+                steps.append(st)
+        pscripts.append(dict(cfg=cfgp, steps=steps, origin="logmix"))
     ptrace = fam_proc.drive(ctx, pscripts, "c20proc", env=dict(VERIF_LOGS="1"))
+    # the same scripts with the processor's limiter replaced by one that suppresses nothing: the attempted messages
+    atrace = fam_proc.drive(ctx, [dict(s, cfg=dict(s["cfg"], nolimit=True)) for s in pscripts], "c20attempts", env=dict(VERIF_LOGS="1"))
+    def lines_by_script(tr):
+        out, cur = {}, None
+        for e in vlib.read_ndjson(tr):
+            if e["ev"] == "cfg":
+                cur = e["script"]; out[cur] = []
+            out[cur] += [ln["out"] for ln in (e.get("logs") or [])]
+        return out
+    obs, att = lines_by_script(ptrace), lines_by_script(atrace)
     plines = 0
     with open(trace, "a") as f:
         cur = None
@@ -99,6 +124,9 @@ def run(ctx):
             for ln in e.get("logs") or []:
                 plines += 1
                 f.write(json.dumps(dict(ev="pout", script=cur, out=ln["out"], now=ln["now"])) + "\n")
+    with open(trace, "a") as f:
+        for si in sorted(obs):
+            f.write(json.dumps(dict(ev="pcmp", script=si, attempts=att.get(si, []), out=obs[si])) + "\n")
     events = vlib.read_ndjson(trace)
     viol, nev = judge(ctx, trace)
     owner, cur, starts = [], -1, {}
@@ -114,7 +142,7 @@ def run(ctx):
             seen.add(t)
             si = owner[line - 1]
             ob = events[line - 1]
-            if ob["ev"] == "pout":
+            if ob["ev"] in ("pout", "pcmp"):
                 rp = vlib.save_replay(ctx, t.replace(":", "_"), dict(family="loglim", property="C20", clause=t,
                                       proc_script=pscripts[ob["script"]], observed=ob))
                 violations.append(dict(key=t, replay=rp, what=json.dumps(ob)[:200]))
@@ -130,6 +158,7 @@ def run(ctx):
                     exhaustive=True, design=dict(Interval=I, MaxTime=consts["MaxTime"]), cover_edges=ne,
                     cover_scripts=ncover, random_scripts=nrand, events_judged=nev, calls=len(prints), suppressed=supp,
                     processor_scripts=len(pscripts), processor_lines_judged=plines,
+                    processor_attempted_messages=sum(len(v) for v in att.values()),
                     recorder_interval_checked=any(e["ev"] == "const" for e in events),
                     evaluations=len(scripts), distinct_nontrivial=distinct,
                     rule="transition cover of LogReplay + seeded histories with arrivals at interval-1/interval/interval+1; "
@@ -141,13 +170,17 @@ def replay(ctx, path):
     rp = json.load(open(path))
     if rp.get("proc_script"):
         import fam_proc
-        ptrace = fam_proc.drive(ctx, [rp["proc_script"]], "replayproc", env=dict(VERIF_LOGS="1"))
+        sc = rp["proc_script"]
+        ptrace = fam_proc.drive(ctx, [sc], "replayproc", env=dict(VERIF_LOGS="1"))
+        atrace = fam_proc.drive(ctx, [dict(sc, cfg=dict(sc["cfg"], nolimit=True))], "replayatt", env=dict(VERIF_LOGS="1"))
         trace = ctx.path("run", "replayproc.log.ndjson")
+        outl = [ln for e in vlib.read_ndjson(ptrace) for ln in (e.get("logs") or [])]
+        attl = [ln["out"] for e in vlib.read_ndjson(atrace) for ln in (e.get("logs") or [])]
         with open(trace, "w") as f:
             f.write(json.dumps(dict(ev="pnew", script=0)) + "\n")
-            for e in vlib.read_ndjson(ptrace):
-                for ln in e.get("logs") or []:
-                    f.write(json.dumps(dict(ev="pout", script=0, out=ln["out"], now=ln["now"])) + "\n")
+            for ln in outl:
+                f.write(json.dumps(dict(ev="pout", script=0, out=ln["out"], now=ln["now"])) + "\n")
+            f.write(json.dumps(dict(ev="pcmp", script=0, attempts=attl, out=[ln["out"] for ln in outl])) + "\n")
         viol, _ = judge(ctx, trace, "replaymon")
         tags = sorted({t for (_, ts) in viol for t in ts})
         if tags:
